@@ -1,5 +1,7 @@
 import MosnVerif.Lemmas.LB
 import MosnVerif.Lemmas.Snapshot
+import MosnVerif.Lemmas.ClusterPub
+import MosnVerif.Lemmas.HostOps
 /-!
 # C05 — load balancers return only current, healthy members (property theorems only)
 
@@ -153,5 +155,125 @@ theorem update_in_place_mixes :
     seen (run (initConf updateInPlace 1) [0, 0, 1, 1, 1, 1, 1, 1, 1, 1, 0]) 0 = some (0, 1) := by decide
 
 end SnapshotCoherence
+
+/-! ## an update is a sequence of atomic steps; a lookup may run between any two of them
+
+`Gen/ClusterPub.lean` is regenerated from `cluster_manager.go`: `clusterManager.UpdateCluster` / `UpdateHosts` statement by
+statement, and the handlers they are called with (`AddOrUpdatePrimaryCluster`, `AddOrUpdateClusterAndHost`,
+`UpdateClusterHosts`, `AppendClusterHosts`, `RemoveClusterHosts`). `Model/ClusterPub.lean` runs any number of such updaters
+(thread `v` supplies host set `v`; 0 is the set the cluster has) and lookups (`GetClusterSnapshot`: `clustersMap.Load`,
+then `Snapshot()`) under an arbitrary schedule. A lookup sees `some v` or `none` = neither (the empty set of a cluster
+object that has not been given its hosts yet). -/
+section PublicationOrder
+open MosnVerif.Model.ClusterPub MosnVerif.Gen.ClusterPub
+
+/-- **publication_order_discipline**: in every regenerated updater the host set is built completely before the atomic
+publish, the new cluster object is stored into `clustersMap` only after its handler gave it the host set, and nothing
+touches a set after publication. -/
+theorem publication_order_discipline : publicationOrderOk = true := by decide
+
+/-- **lookup_never_neither**: for EVERY program with that order, any number of concurrent updaters and lookups, EVERY
+schedule (= every interleaving point): a finished lookup saw a host set that exists — the initial one or one an updater
+supplied — never the unfilled one. -/
+theorem lookup_never_neither (prog : List CStep) (h : orderOk prog = true) (nUpd : Nat) (sched : List Nat) (t : Nat)
+    (r : Option Nat) (hs : seen (run (initConf prog nUpd) sched) t = some r) :
+    ∃ v, r = some v ∧ v ≤ nUpd ∧ v ∈ (run (initConf prog nUpd) sched).m.supplied := by
+  have I := inv_run sched _ (inv_init prog h nUpd)
+  have B := supBound_run nUpd sched _ (supBound_init prog nUpd)
+  have ht := I.thr t
+  unfold seen at hs
+  split at hs
+  · rename_i r' heq
+    simp only [Option.some.injEq] at hs
+    subst hs
+    rw [heq] at ht
+    obtain ⟨v, h1, h2⟩ := ht
+    exact ⟨v, h1, B.1 v h2, h2⟩
+  · simp at hs
+
+/-- **lookup_during_update**: one update by any of the manager's (regenerated) updaters, any number of lookups, every
+schedule: each lookup sees the old set (0) or the new set (1), and what the balancer of that set returns — every policy,
+state, draw — is a healthy member of THAT set, no host only if that set has no healthy member. -/
+theorem lookup_during_update (prog : List CStep) (hp : prog ∈ updaters) (sched : List Nat) (t : Nat) (r : Option Nat)
+    (hs : seen (run (initConf prog 1) sched) t = some r) :
+    ∃ v, r = some v ∧ (v = 0 ∨ v = 1) ∧
+      ∀ (hostsOf : Nat → MosnVerif.Model.LB.Hosts) (p : Policy) (choice : Nat) (st : LBState) (c : Call),
+        specLookup p c (hostsOf v) (choose p choice (hostsOf v) st c).result = true ∧
+        (∀ i, (choose p choice (hostsOf v) st c).result = some i → i < (hostsOf v).length ∧ hAt (hostsOf v) i = true) ∧
+        (keyed p c = true → (choose p choice (hostsOf v) st c).result = none → ∀ i, hAt (hostsOf v) i = false) := by
+  have hok : orderOk prog = true := List.all_eq_true.mp publication_order_discipline prog hp
+  obtain ⟨v, rfl, hle, _⟩ := lookup_never_neither prog hok 1 sched t r hs
+  refine ⟨v, rfl, by omega, ?_⟩
+  intro hostsOf p choice st c
+  exact ⟨spec_holds_on_model p choice _ st c,
+    fun i hi => ⟨member p choice _ st c i hi, healthy_result p choice _ st c i hi⟩,
+    fun hk hn => none_only_if p choice _ st c hk hn⟩
+
+-- non-vacuity: AddOrUpdatePrimaryCluster (thread 1); the lookup of thread 0 runs between newCluster/loadOld and the
+-- handler, the lookup of thread 2 after the store: both see set 0 (the inherited one)
+example : expand primaryHandler updateCluster ∈ updaters := by decide
+example : seen (run (initConf (expand primaryHandler updateCluster) 1) [1, 1, 0, 0, 1, 1, 2, 2]) 0 = some (some 0) ∧
+    seen (run (initConf (expand primaryHandler updateCluster) 1) [1, 1, 0, 0, 1, 1, 2, 2]) 2 = some (some 0) := by decide
+-- UpdateClusterHosts: a lookup after the publish sees the new set
+example : seen (run (initConf (expand newSimpleHostHandler updateHostsMgr) 1) [1, 1, 1, 0, 0]) 0 = some (some 1) := by decide
+
+/-- **store_before_fill_sees_neither** (negative witness, machine-checked): storing the new cluster object into
+`clustersMap` BEFORE the handler gave it its host set violates the order, and the lookup that runs between the store and the
+handler sees neither the old nor the new set. The end state is the same. -/
+theorem store_before_fill_sees_neither :
+    orderOk storeBeforeFill = false ∧
+    seen (run (initConf storeBeforeFill 1) [1, 1, 1, 1, 0, 0, 1, 1]) 0 = some none ∧
+    seen (run (initConf storeBeforeFill 1) [1, 1, 1, 1, 0, 0, 1, 1, 2, 2]) 2 = some (some 0) := by decide
+
+end PublicationOrder
+
+/-! ## which host OBJECT the cluster carries for an address
+
+`Model/HostOps.lean`: the handlers' list construction (regenerated order: supplied hosts, then the current ones) composed
+with `setFinalHost` (regenerated rule: the first occurrence of an address is kept). `absRun` is the declarative map
+address → most recently supplied object (within one call: the first occurrence of the address in that call). -/
+section HostObjects
+open MosnVerif.Model.HostOps
+
+/-- **published_exact**: after ANY sequence of Update / Append / Remove / inherit operations, from any represented start,
+the published list has distinct addresses and lists for every address exactly the abstract map's object. -/
+theorem published_exact (ops : List MosnVerif.Model.HostOps.Op) (c : List H) (m : Nat → Option H) (h : Rep c m) :
+    ((MosnVerif.Model.HostOps.runOps c ops).map (·.a)).Nodup ∧ ∀ a, firstOf (MosnVerif.Model.HostOps.runOps c ops) a = absRun m ops a :=
+  rep_run ops c m h
+
+/-- **lb_returns_current_object**: every balancer (any policy, state, draws) over the published list (`hosts` is that list
+position by position) returns an index whose object is the abstract map's object for its address. -/
+theorem lb_returns_current_object (ops : List MosnVerif.Model.HostOps.Op) (c : List H) (m : Nat → Option H) (h : Rep c m)
+    (hosts : MosnVerif.Model.LB.Hosts) (hl : hosts.length = (MosnVerif.Model.HostOps.runOps c ops).length)
+    (p : Policy) (choice : Nat) (st : LBState) (cl : Call) (i : Nat)
+    (hi : (choose p choice hosts st cl).result = some i) :
+    ∃ o, (MosnVerif.Model.HostOps.runOps c ops)[i]? = some o ∧ absRun m ops o.a = some o := by
+  have hlt : i < (MosnVerif.Model.HostOps.runOps c ops).length := hl ▸ member p choice hosts st cl i hi
+  have R := rep_run ops c m h
+  refine ⟨(MosnVerif.Model.HostOps.runOps c ops)[i], by simp [hlt], ?_⟩
+  rw [← R.2]
+  exact firstOf_of_mem _ R.1 _ (List.getElem_mem hlt)
+
+-- non-vacuity: address 1 is appended again with a new object (token 2, weight 5), twice in one call (first one counts)
+example : Rep [⟨1, 1, 1⟩, ⟨3, 7, 2⟩] (fun a => if a = 1 then some ⟨1, 1, 1⟩ else if a = 3 then some ⟨3, 7, 2⟩ else none) := by
+  refine ⟨by decide, fun a => ?_⟩
+  by_cases h1 : a = 1
+  · subst h1; decide
+  · by_cases h3 : a = 3
+    · subst h3; decide
+    · have e1 : ¬ (1 = a) := fun e => h1 e.symm
+      have e3 : ¬ (3 = a) := fun e => h3 e.symm
+      rw [firstOf_cons, firstOf_cons, if_neg e1, if_neg e3]
+      simp [firstOf, h1, h3]
+example : MosnVerif.Model.HostOps.runOps [⟨1, 1, 1⟩, ⟨3, 7, 2⟩] [.append [⟨1, 2, 5⟩, ⟨1, 3, 4⟩], .remove [3]] = [⟨1, 2, 5⟩] := by decide
+
+/-- **last_wins_keeps_stale_object** (negative witness, machine-checked): with the other de-duplication rule (last
+occurrence wins, in the first one's slot) the list the append handler builds (new object first, then the current ones)
+publishes the OLD object of the address, while the map says the new one. -/
+theorem last_wins_keeps_stale_object :
+    dedupLast ([⟨1, 2, 5⟩] ++ [⟨1, 1, 1⟩, ⟨3, 7, 2⟩]) = [⟨1, 1, 1⟩, ⟨3, 7, 2⟩] ∧
+    dedupFirst [] ([⟨1, 2, 5⟩] ++ [⟨1, 1, 1⟩, ⟨3, 7, 2⟩]) = [⟨1, 2, 5⟩, ⟨3, 7, 2⟩] := by decide
+
+end HostObjects
 
 end MosnVerif.Props.C05
